@@ -1,4 +1,5 @@
 import Ccp.Proofs.IPText
+import Ccp.Proofs.IPSpell
 import Ccp.Spec.IP
 /-!
 # C11 — IPv4/IPv6 objects agree with the standard library on every derived value
@@ -367,22 +368,89 @@ example : V6.fromStr " ::1 64 ".toList = .ok (mk6 1 64) := by rfl
 example : V6.fromStr "::/0".toList = .ok (mk6 0 0) := by rfl
 example : V6.fromStr "2001:DB8::8:800:200C:417A/64".toList = .ok (mk6 0x20010DB80000000000080800200C417A 64) := by rfl
 
-/-- **IPv6 rejects — partial** (this is the statement F16 violated before the regex was anchored): whenever
-the text constructor returns an object, then after `strip()` and the blank-to-slash rewrite the
-*whole* text (at most 49 characters) is `addr` (then `len = 128`) or `addr<sep>digits` where `addr` is
-exactly the text the stdlib parsed into the stored address and `digits` are ASCII digits whose value
-is the stored prefix length ≤ 128; the object is the object of `(ip, len)`.
-Full statement (NOT proved): additionally `addr` is one of the RFC 4291 spellings of `o.ip`
-(a property of the stdlib parser model `stdV6Int` alone, measured against the real `ipaddress`). -/
-theorem v6_rejects_partial (input : Str) (o : Obj) (h : V6.fromStr input = .ok o) :
-    o = mk6 o.ip o.len ∧ o.len ≤ 128 ∧
+/-- **The stdlib IPv6 parser model is sound for RFC 4291 §2.2**: a text it accepts is a spelling of the
+value it returns (eight groups of 1–4 hex digits, or `hi::lo` with at most seven groups written and the
+missing ones zero, the last two groups optionally as a canonical dotted quad), and that value is a
+128-bit address.  `IP.IsV6Spelling` is the short readable grammar in `Ccp.Spec.IP`. -/
+theorem stdlib_v6_parser_sound (addr : Str) (n : Nat) (h : stdV6Addr addr = .ok n) :
+    IP.IsV6Spelling addr n ∧ n < 2 ^ 128 := by
+  have hi : stdV6Int addr = some n := by
+    unfold stdV6Addr at h
+    split at h
+    · cases h
+    · split at h
+      · cases h
+      · split at h
+        · rename_i v hv; cases h; exact hv
+        · cases h
+  have hs := stdV6Int_sound addr n hi
+  exact ⟨hs, spelling_lt addr n hs⟩
+
+/-- the stdlib parser model accepts exactly the RFC 4291 spellings, with exactly their value -/
+theorem stdlib_v6_parser_exact (addr : Str) (n : Nat) : stdV6Int addr = some n ↔ IP.IsV6Spelling addr n :=
+  ⟨stdV6Int_sound addr n, stdV6Int_complete addr n⟩
+
+/-- **IPv6 text forms, every spelling**: for *any* RFC 4291 spelling `addr` of `ip` – upper, lower or mixed
+case, leading zeros in groups, `::` on any run of one or more zero groups (not only the RFC 5952 choice),
+the last two groups as a dotted quad (`::ffff:a.b.c.d`, `x:x:x:x:x:x:a.b.c.d`, …) – written as `addr/len`
+or `addr<blanks>len` with any surrounding blanks and ASCII digits for `len`, the constructor builds the
+object of `(ip, len)`, provided the normalised text passes the code's 49-character guard. -/
+theorem v6_text_forms (ip len : Nat) (addr : Str) (hsp : IP.IsV6Spelling addr ip) (hlen : len ≤ 128)
+    (digits : Str) (hne : digits ≠ []) (hd : ∀ c ∈ digits, isDigit c = true) (hv : ofDigits digits = some len)
+    (hguard : (addr ++ '/' :: digits).length ≤ 49) (input : Str)
+    (hs : strip input = addr ++ '/' :: digits ∨
+      ∃ ws, ws ≠ [] ∧ (∀ c ∈ ws, isSpace c = true) ∧ strip input = addr ++ ws ++ digits) :
+    V6.fromStr input = .ok (mk6 ip len) :=
+  V6.fromStr_spelling input addr ip len digits hsp hlen hne hd hv hguard hs
+
+/-- the same without a mask: prefix length 128 -/
+theorem v6_text_forms_plain (ip : Nat) (addr : Str) (hsp : IP.IsV6Spelling addr ip) (hguard : addr.length ≤ 49)
+    (input : Str) (hs : strip input = addr) : V6.fromStr input = .ok (mk6 ip 128) :=
+  V6.fromStr_spelling_plain input addr ip hsp hguard hs
+
+-- non-vacuity: spellings outside the canonical ones (upper case + embedded quad, `::` on a single zero
+-- group with leading zeros kept, full form with dotted quad) are spellings of the expected values
+example : IP.IsV6Spelling "::FFFF:1.2.3.4".toList 0xFFFF01020304 := stdV6Int_sound _ _ (by decide +kernel)
+example : IP.IsV6Spelling "1:02:003:0004::6:7:8".toList 0x00010002000300040000000600070008 :=
+  stdV6Int_sound _ _ (by rfl)
+example : IP.IsV6Spelling "0:0:0:0:0:ffff:255.255.255.255".toList 0xFFFFFFFFFFFF := stdV6Int_sound _ _ (by decide +kernel)
+
+/-- **RFC 5952 canonicity of `str(IPv6Address(n))` — partial.**  Proved, on the zero pattern `zs` of the
+eight printed groups (`zs[i]` ⇔ group `i` prints as `"0"`): if the loop of `_compress_hextets` shortens at all
+it shortens the run `(s, len)` with `shortenedB zs s len` – at least two groups, all zero, no longer zero
+run anywhere, no equally long one further left (RFC 5952 §4.2.1–4.2.3, with bounded quantifiers) – and the
+text is exactly `groups-before :: groups-after`; if it does not shorten, no run of two or more zero groups
+exists and the text is the eight groups joined by colons.  Groups are printed by `'%x'` (lower case, no
+leading zeros: `toHex`).
+Full statement (NOT proved): with `gs := IP.groups n`, `IP.IsShortened gs s l → strV6 n = IP.compressedAt gs s l`
+and `(¬ ∃ s l, IP.IsShortened gs s l) → strV6 n = join ":" (gs.map IP.hexShort)`.  Missing: the two bridges
+`toHex g = IP.hexShort g` (g < 65536) and `shortenedB (zero pattern of gs) s l ↔ IP.IsShortened gs s l`. -/
+theorem strV6_canonical_partial (n : Nat) :
+    let X := (hextets n).map toHex
+    let zs := X.map (· == ['0'])
+    let st := runLoop {} 0 zs
+    (st.bestLen > 1 → ∃ s, st.bestStart = some s ∧ shortenedB zs s st.bestLen = true ∧
+      strV6 n = join [':'] (X.take s) ++ ':' :: ':' :: join [':'] (X.drop (s + st.bestLen))) ∧
+    (¬ st.bestLen > 1 → (∀ s k, s < 8 → k < 9 → zeroRun zs s k = false) ∧ strV6 n = join [':'] X) :=
+  strV6_choice n
+
+/-- **IPv6 rejects** (no silent truncation or coercion; this is the statement F16 violated before the
+regex was anchored): whenever the text constructor returns an object, then after `strip()` and the
+blank-to-slash rewrite the *whole* text (at most 49 characters) is `addr` (then `len = 128`) or
+`addr<sep>digits`, where `addr` is an RFC 4291 spelling of exactly the stored address and `digits`
+are ASCII digits whose value is the stored prefix length ≤ 128; the object is the object of
+`(ip, len)`.  Every other text raises. -/
+theorem v6_rejects (input : Str) (o : Obj) (h : V6.fromStr input = .ok o) :
+    o = mk6 o.ip o.len ∧ o.len ≤ 128 ∧ o.ip < 2 ^ 128 ∧
     ∃ joined addr, joined.length ≤ 49 ∧
       (splitWs (strip input) = [joined] ∨ ∃ a b, splitWs (strip input) = [a, b] ∧ joined = a ++ '/' :: b) ∧
-      stdV6Addr addr = .ok o.ip ∧
+      IP.IsV6Spelling addr o.ip ∧
       ((strip joined = addr ∧ o.len = 128) ∨
        ∃ sep m, strip joined = addr ++ sep :: m ∧ (sep = '/' ∨ isSpace sep = true) ∧ m ≠ [] ∧
-         (∀ c ∈ m, isDigit c = true) ∧ ofDigits m = some o.len) :=
-  V6.fromStr_inv input o h
+         (∀ c ∈ m, isDigit c = true) ∧ ofDigits m = some o.len) := by
+  obtain ⟨h1, h2, joined, addr, h3, h4, h5, h6⟩ := V6.fromStr_inv input o h
+  have hs := stdlib_v6_parser_sound addr o.ip h5
+  exact ⟨h1, h2, hs.2, joined, addr, h3, h4, hs.1, h6⟩
 
 -- non-vacuity: the F16 witnesses and their neighbours are refused by the model
 example : V6.fromStr "::1/64junk".toList = .error .addressValueError := by rfl
